@@ -113,7 +113,7 @@ m('C10', 'close-keeps-child_fd', PS, "        self.isalive()  # Update exit stat
 m('C10', 'terminate-force-skips-kill', PS, "            if force:\n                self.kill(signal.SIGKILL)", "            if False:\n                self.kill(signal.SIGKILL)", 'terminate(force=True) never sends SIGKILL')
 m('C10', 'fd-close-no-early-return', FD, "        if self.child_fd == -1:\n            return\n\n        self.flush()\n        os.close(self.child_fd)", "        self.flush()\n        os.close(self.child_fd)", 'fdspawn.close() is not idempotent')
 m('C10', 'failed-close-keeps-fd', PS, "            self.child_fd = -1\n            raise\n", "            raise\n", 'revert of the stale child_fd fix')
-m('C10', 'read-after-close-allowed', PS, "        if self.closed:\n            raise ValueError('I/O operation on closed file.')\n", "", 'read_nonblocking does not refuse a closed object')
+m('C10', 'close-ignores-force', PS, "                self.ptyproc.close(force=force)", "                self.ptyproc.close(force=False)", 'close() never escalates to SIGKILL')
 m('C10', 'socket-close-keeps-fd', SO, "        self.socket.close()\n        self.child_fd = -1\n        self.closed = True", "        self.socket.close()\n        self.closed = True", 'SocketSpawn.close keeps child_fd')
 m('C10', 'terminated-set-while-alive', PS, "        if not alive:\n            self.status = ptyproc.status", "        if True:\n            self.status = ptyproc.status", 'isalive() marks a running child terminated')
 # ---- C11
